@@ -7,6 +7,8 @@ import "fmt"
 // pigeon on the emitted path) covers all of them: each expression kind directly inside each other kind -
 // where a lowering slip of the builder lives - and the small-scope enumeration of EnumExprs.
 
+const packChunk = 60
+
 type packer struct {
 	id     int
 	cid    int
@@ -196,16 +198,39 @@ func PackCases(seed int64, nEnum int, tmpls []Tmpl) []*Case {
 			}
 		}
 		inputs := [][]byte{{}, []byte("a"), []byte("b"), []byte("ab"), []byte("aa"), []byte("aab"), []byte("ba"), []byte("A"), []byte("abb"), []byte("aba"), []byte("abab")}
-		k := 0
-		for _, en := range entries {
-			for _, in := range inputs {
-				o := Opts{Recover: true, Entry: en}
-				if !wfOf[en] {
-					o.MaxExpr = 200 // a repetition of something that can match the empty string: runs under a budget
+		// a case line carries its whole grammar: the rules are cut into grammars of at most packChunk entry rules
+		// (the three base rules are in each)
+		byName := map[string]*Rule{}
+		for _, r := range rules {
+			byName[r.Name] = r
+		}
+		for ch := 0; ch*packChunk < len(entries); ch++ {
+			hi := (ch + 1) * packChunk
+			if hi > len(entries) {
+				hi = len(entries)
+			}
+			part := entries[ch*packChunk : hi]
+			prules := []*Rule{rules[0], rules[1], rules[2]}
+			pblocks := map[int]*Block{}
+			for _, en := range part {
+				prules = append(prules, byName[en])
+				walkNodes(byName[en].Expr, func(n *Node) {
+					if b, ok := p.blocks[n.Cid]; ok && (n.K == KAct || n.K == KAndC || n.K == KNotC || n.K == KStC) {
+						pblocks[n.Cid] = b
+					}
+				})
+			}
+			k := 0
+			for _, en := range part {
+				for _, in := range inputs {
+					o := Opts{Recover: true, Entry: en}
+					if !wfOf[en] {
+						o.MaxExpr = 200 // a repetition of something that can match the empty string: runs under a budget
+					}
+					out = append(out, &Case{ID: fmt.Sprintf("pack-%d-%d-%d/%d", seed, ti, ch, k), Tmpl: t, Opts: o,
+						Rules: prules, Blocks: pblocks, Input: in, WF: wfOf[en]})
+					k++
 				}
-				out = append(out, &Case{ID: fmt.Sprintf("pack-%d-%d/%d", seed, ti, k), Tmpl: t, Opts: o,
-					Rules: rules, Blocks: p.blocks, Input: in, WF: wfOf[en]})
-				k++
 			}
 		}
 	}
